@@ -35,6 +35,7 @@ def main():
             return 2
         subprocess.run(["git", "-C", "/repo", "apply", os.path.join(d, "patch.diff")], check=True)
     results = {}
+    t_start = time.time() - 1
     try:
         for p in props:
             t0 = time.time()
@@ -52,7 +53,8 @@ def main():
         # replays written while the change was applied describe the mutant, not the tree: move them next to it
         rep = os.path.join(VERIF, "replays")
         for f in os.listdir(rep):
-            if f.endswith(".plan"):
+            # only what this evaluation wrote (another check may be running in /verif at the same time)
+            if f.endswith(".plan") and any(f.startswith(p + "-") for p in props) and os.path.getmtime(os.path.join(rep, f)) >= t_start:
                 os.replace(os.path.join(rep, f), os.path.join(d, "caught-" + f))
     meta.setdefault("eval", {}).update(results)
     json.dump(meta, open(os.path.join(d, "meta.json"), "w"), indent=1)
